@@ -77,6 +77,7 @@ type ViolationRec struct {
 	Violation Failure        `json:"violation"`
 	Signature string         `json:"signature"`
 	Shrunk    bool           `json:"shrunk"`
+	FromSeed  bool           `json:"from_seed,omitempty"`
 	ShrinkLog string         `json:"shrink_log,omitempty"`
 }
 
@@ -275,7 +276,14 @@ func cmdRun(args []string) {
 	if opt.Engine == "async" {
 		w.Uncovered = uncoveredMethods()
 	}
+	if *prop == "C19" {
+		w.Uncovered = uncoveredFluent()
+	}
 	start := time.Now()
+	var progress *os.File
+	if *out != "" {
+		progress, _ = os.Create(*out + ".progress")
+	}
 	fingers := map[uint64]bool{}
 	sigs := map[string]bool{}
 	failingRuns := 0
@@ -283,6 +291,9 @@ func cmdRun(args []string) {
 		if *budget > 0 && time.Since(start).Seconds() > *budget {
 			w.To = i
 			break
+		}
+		if progress != nil {
+			progress.WriteAt([]byte(fmt.Sprintf("%012d\n", i)), 0)
 		}
 		ch := simrt.NewChooser(simrt.Mix(*seed, uint64(i)))
 		res, trouble := oneRun(ch, opt, rl)
@@ -384,6 +395,10 @@ func loadRec(path string) ViolationRec {
 // (or, with anySig, the first failure that concerns the property), and the full result.
 func replayOnce(rec ViolationRec, draws []int, rl *raceLog, anySig bool) (*Failure, RunResult, *simrt.Chooser) {
 	ch := simrt.NewReplay(draws)
+	if draws == nil && rec.FromSeed {
+		// a run that never returned has no recorded draws: it is identified by (VERIF_SEED, run index)
+		ch = simrt.NewChooser(simrt.Mix(rec.VerifSeed, uint64(rec.Run)))
+	}
 	opt := Options{Prop: rec.Property, Engine: rec.Engine, Tier: rec.Tier, KeepTrace: true, Scenario: -1}
 	res, _ := oneRun(ch, opt, rl)
 	var first *Failure
